@@ -62,8 +62,10 @@ def check(ctx):
     # ---- compute_new_shutdown table
     c = ctx.body(SW, r"connection::compute_new_shutdown$")
     res = [mir.Site(c, x[1], x[2]) for x in c.defs[0]]
-    am = [(r"^handler_keep_alive$", "keep_alive"), (r"^discr\(current_shutdown\)$", "current"),
-          (r"^<web_time::Duration as std::cmp::PartialEq>::eq\(idle_timeout, const:web_time::Duration::ZERO\)$", "timeout_zero")]
+    # parameters by position (names are irrelevant): (keep_alive: bool, current: &Shutdown, idle_timeout: Duration)
+    a1, a2, a3 = [re.escape(c.names.get(i) or "arg%d" % i) for i in (1, 2, 3)]
+    am = [(r"^%s$" % a1, "keep_alive"), (r"^discr\(%s\)$" % a2, "current"),
+          (r"^<web_time::Duration as std::cmp::PartialEq>::eq\((%s, const:web_time::Duration::ZERO|const:web_time::Duration::ZERO, %s)\)$" % (a3, a3), "timeout_zero")]
 
     def val(s):
         r = render(c.site_expr(s))
@@ -72,7 +74,7 @@ def check(ctx):
         m = re.match(r"^std::option::Option::Some\{0: libp2p_swarm::connection::Shutdown::(\w+)\{(.*)\}\}$", r)
         if m:
             if m.group(1) == "Later":
-                ok = m.group(2) == "0: futures_timer::Delay::new(libp2p_swarm::connection::checked_add_fraction(web_time::Instant::now(), idle_timeout))"
+                ok = m.group(2) == "0: futures_timer::Delay::new(libp2p_swarm::connection::checked_add_fraction(web_time::Instant::now(), %s))" % (c.names.get(3) or "arg3")
                 return "Later(idle_timeout)" if ok else "Later(?%s)" % m.group(2)[:40]
             return m.group(1)
         return "?" + r[:60]
